@@ -191,6 +191,13 @@ def rule_insufficiency(ctx: Ctx) -> RuleResult:
             if n in guards:
                 rr.inst(ident, True, {"function": short(fi), "test": norm(n.stmt, 80), "raises_directly": True} if len(rr.samples) < 4 else None)
                 continue
+            # `if short and more_available: raise` followed by `if short: return ...`: the guard already saw the
+            # same condition, so reaching this test with the condition true means more_available is false
+            cond_txt = ast.unparse(n.ast)
+            pre = [g for g in guards if isinstance(g.ast, ast.BoolOp) and isinstance(g.ast.op, ast.And) and any(ast.unparse(v) == cond_txt for v in g.ast.values) and cfg.dominated(n, [g])]
+            if pre:
+                rr.inst(ident, True)
+                continue
             r = cfg.reachable_from_edges([(n, "T")], avoid=guards)
             bad = [x for x in r if x.kind == "return"] + ([cfg.exit] if cfg.exit in r and not any(x.kind == "return" for x in r) else [])
             rr.inst(ident, True, {"function": short(fi), "test": norm(n.stmt, 80), "guarded": not bad} if len(rr.samples) < 4 else None)
@@ -482,3 +489,18 @@ def run(ctx: Ctx):
         rule_trie_table(ctx),
     ]
     return out
+
+
+from ..mutants import Mut  # noqa: E402
+
+_E = "urwid/display/escape.py"
+_R = "urwid/display/_raw_display_base.py"
+MUTANTS = [
+    Mut("mouse-info-no-more-input", _E, "KeyqueueTrie.read_mouse_info", "        if len(keys) < 3:\n            if more_available:\n                raise MoreInputRequired()\n            return None", "        if len(keys) < 3:\n            return None", "PAIR|display.escape.KeyqueueTrie.read_mouse_info"),
+    Mut("cursor-report-cut-before-R", _E, "KeyqueueTrie.read_cursor_position", "        if not keys[i:] and more_available:\n            raise MoreInputRequired()\n        return None", "        return None", "PAIR|display.escape.KeyqueueTrie.read_cursor_position"),
+    Mut("utf8-tail-not-awaited", _E, "process_keyqueue", "            if len(codes) <= i:\n                if more_available:\n                    raise MoreInputRequired()\n", "            if len(codes) <= i:\n", "PAIR|display.escape.process_keyqueue"),
+    Mut("sgr-mouse-int-unguarded", _E, "KeyqueueTrie.read_sgrmouse_info", "        try:\n            (b, x, y) = (int(val) for val in value[:-1].split(\";\"))\n        except ValueError:\n            # malformed report (wrong number of fields or a non-numeric field): not a known sequence\n            return None", "        (b, x, y) = (int(val) for val in value[:-1].split(\";\"))", "EXC|"),
+    Mut("partial-codes-not-kept", _R, "urwid.display._raw_display_base.Screen.parse_input", "            self._partial_codes = codes\n", "", "ORDER|"),
+    Mut("timeout-not-cancelled-before-parse", _R, "urwid.display._raw_display_base.Screen.parse_input", "        if self._input_timeout and event_loop:\n            event_loop.remove_alarm(self._input_timeout)\n            self._input_timeout = None\n", "", "ORDER|"),
+    Mut("twin-mouse-info-guard-merged", _E, "KeyqueueTrie.read_mouse_info", "        if len(keys) < 3:\n            if more_available:\n                raise MoreInputRequired()\n            return None", "        if len(keys) < 3 and more_available:\n            raise MoreInputRequired()\n        if len(keys) < 3:\n            return None", twin=True),
+]
